@@ -42,6 +42,12 @@ type Contract struct {
 	Sites    []Clause // site obligations: "site <matcher>: expr"
 	RangeInv []Clause // invariant of a sync.Map.Range call in this function (over visited(k))
 	Ats      []*AtHook // source-line hooks: assertions before / ghost assignments after a source line
+	Logical  [][2]string // logical (universally quantified) variables of the contract: name, type
+	Dyns     [][2]string // dynamic-type bindings at entry: access path, type (may mention $K)
+	Foreach  []string    // the function is verified once per listed type, bound to $K
+	Prune    bool        // follow only feasible branches (solver check at each symbolic branch)
+	Axiomatize string // lemma functions: "[group] name {triggers}" - the verified contract (forall parameters: requires ==> ensures) becomes an axiom of that group
+	Recursion int      // inlined functions: self-recursion is inlined up to this call depth (statically bounded recursion)
 	NoLockLedger bool  // the lock-discipline obligations are not part of this function's claim
 	Dispatch bool      // interface contract: known implementations are dispatched to, the contract covers other dynamic types
 	File     string
@@ -70,6 +76,8 @@ type SpecFunc struct {
 	Body   SExpr
 	Pkg    *types.Package
 	Src    string
+	Reads  []string // heaps the function depends on (extra leading arguments of the SMT function)
+	RSorts []string
 }
 
 type GhostDecl struct {
@@ -91,6 +99,8 @@ type AxiomDecl struct {
 	Clause
 	Pkg   *types.Package
 	Lemma bool
+	ByFunc string  // proved by verifying this lemma function (no separate solver obligation)
+	From  []string // lemmas: the groups it is proved from (default: its own group, without itself being available)
 	term  string
 }
 
@@ -99,7 +109,7 @@ var propRe = regexp.MustCompile(`^\[((?:C[0-9]+\s*)+)\]\s*(.*)$`)
 
 var keywords = map[string]bool{"func": true, "iface": true, "property": true, "use": true, "requires": true, "ensures": true,
 	"loop": true, "modifies": true, "trusted": true, "inline": true, "pure": true, "axiom": true, "lemma": true,
-	"ghost": true, "smt": true, "let": true, "extern": true, "macro": true, "rangeinv": true, "at": true, "dispatch": true, "nolockledger": true, "chan": true, "site": true, "nopanic": true, "end": true, "note": true, "params": true}
+	"ghost": true, "smt": true, "let": true, "extern": true, "macro": true, "rangeinv": true, "at": true, "dispatch": true, "nolockledger": true, "recursion": true, "prune": true, "axiomatize": true, "logical": true, "dyn": true, "foreach": true, "chan": true, "site": true, "nopanic": true, "end": true, "note": true, "params": true}
 
 func (e *Engine) loadContracts(dir string, pkg *types.Package) error {
 	path := filepath.Join(dir, "verif_contracts.go")
@@ -258,6 +268,30 @@ func (e *Engine) loadContracts(dir string, pkg *types.Package) error {
 			cur.Dispatch = true
 		case "nolockledger":
 			cur.NoLockLedger = true
+		case "prune":
+			cur.Prune = true
+		case "axiomatize":
+			cur.Axiomatize = strings.TrimSpace(rest)
+		case "logical":
+			fs := strings.SplitN(strings.TrimSpace(rest), " ", 2)
+			if len(fs) != 2 {
+				return fmt.Errorf("%s:%d: logical <name> <type>", path, d.line)
+			}
+			cur.Logical = append(cur.Logical, [2]string{fs[0], strings.TrimSpace(fs[1])})
+		case "dyn":
+			fs := strings.SplitN(strings.TrimSpace(rest), ":", 2)
+			if len(fs) != 2 {
+				return fmt.Errorf("%s:%d: dyn <path> : <type>", path, d.line)
+			}
+			cur.Dyns = append(cur.Dyns, [2]string{strings.TrimSpace(fs[0]), strings.TrimSpace(fs[1])})
+		case "foreach":
+			cur.Foreach = append(cur.Foreach, strings.Fields(rest)...)
+		case "recursion":
+			n, err := strconv.Atoi(strings.TrimSpace(rest))
+			if err != nil {
+				return fmt.Errorf("%s:%d: bad recursion depth", path, d.line)
+			}
+			cur.Recursion = n
 		case "at":
 			// at "<text>" assert label: expr   |   at "<text>" set g(key) := value
 			m := regexp.MustCompile(`^"([^"]*)"\s+(assert|set|assume)\s+(.*)$`).FindStringSubmatch(rest)
@@ -342,11 +376,21 @@ func (e *Engine) loadContracts(dir string, pkg *types.Package) error {
 			cur.NoPanic = true
 		case "pure":
 			// pure name(a T, b U) R [= expr]
-			m := regexp.MustCompile(`^([A-Za-z_][A-Za-z0-9_]*)\((.*?)\)\s*([^=]*?)\s*(?:=\s*(.*))?$`).FindStringSubmatch(rest)
+			var reads []string
+			if i := strings.Index(rest, " reads "); i > 0 {
+				j := strings.Index(rest[i:], "=")
+				end := len(rest)
+				if j > 0 {
+					end = i + j
+				}
+				reads = strings.Fields(rest[i+7 : end])
+				rest = strings.TrimSpace(rest[:i]) + " " + rest[end:]
+			}
+			m := regexp.MustCompile(`^([A-Za-z_][A-Za-z0-9_]*)\((.*?)\)\s*([^=]*?)\s*(?:=\s*(.*))?$`).FindStringSubmatch(strings.TrimSpace(rest))
 			if m == nil {
 				return fmt.Errorf("%s:%d: bad pure declaration %q", path, d.line, rest)
 			}
-			sf := &SpecFunc{Name: m[1], Pkg: pkg, Src: rest}
+			sf := &SpecFunc{Name: m[1], Pkg: pkg, Src: rest, Reads: reads}
 			for _, p := range strings.Split(m[2], ",") {
 				p = strings.TrimSpace(p)
 				if p == "" {
@@ -380,10 +424,16 @@ func (e *Engine) loadContracts(dir string, pkg *types.Package) error {
 		case "axiom", "lemma":
 			// axiom [group] name: expr
 			grp := "core"
+			var from []string
 			if strings.HasPrefix(rest, "[") {
 				i := strings.Index(rest, "]")
 				grp = strings.TrimSpace(rest[1:i])
 				rest = strings.TrimSpace(rest[i+1:])
+				if j := strings.Index(grp, " from "); j > 0 {
+					// lemma [g from g1 g2]: proved from the axioms of g1 g2, then available in g
+					from = strings.Fields(grp[j+6:])
+					grp = strings.TrimSpace(grp[:j])
+				}
 			}
 			c, err := mkClause(rest, d.line)
 			if err != nil {
@@ -392,7 +442,10 @@ func (e *Engine) loadContracts(dir string, pkg *types.Package) error {
 			if c.Label == "" {
 				return fmt.Errorf("%s:%d: axiom needs a name", path, d.line)
 			}
-			e.axiomDecls = append(e.axiomDecls, &AxiomDecl{Group: grp, Name: c.Label, Clause: c, Pkg: pkg, Lemma: kw == "lemma"})
+			if kw == "lemma" && len(c.Props) == 0 {
+				return fmt.Errorf("%s:%d: lemma %s must name the property under which it is proved: lemma [group] {Cxx} name: ...", path, d.line, c.Label)
+			}
+			e.axiomDecls = append(e.axiomDecls, &AxiomDecl{Group: grp, Name: c.Label, Clause: c, Pkg: pkg, Lemma: kw == "lemma", From: from})
 		case "ghost":
 			f := strings.SplitN(rest, " ", 2)
 			tn := strings.TrimSpace(f[1])
